@@ -57,9 +57,16 @@ func (x *Err) UnmarshalXML(d *xml.Decoder, start xml.StartElement) error {
 			// TODO : change the pubsub handling ? It kind of dilutes the information
 			// Handles : 6.1.3.11 Node Has Moved for XEP-0060 (PubSubGeneric)
 			goneName := xml.Name{Space: "urn:ietf:params:xml:ns:xmpp-stanzas", Local: "gone"}
-			if elt.XMLName == textName || // Regular error text
-				elt.XMLName == goneName { // Gone text for pubsub
+			if elt.XMLName == textName { // Regular error text
 				x.Text = elt.Content
+			} else if elt.XMLName == goneName {
+				// <gone/> is an error condition like the others (RFC 6120, 8.3.3.5). Its
+				// character data (the new address, XEP-0060 6.1.3.11) is kept as the text
+				// unless a <text/> element supplies one.
+				x.Reason = elt.XMLName.Local
+				if x.Text == "" {
+					x.Text = elt.Content
+				}
 			} else if elt.XMLName.Space == "urn:ietf:params:xml:ns:xmpp-stanzas" ||
 				elt.XMLName.Space == "http://jabber.org/protocol/pubsub#errors" {
 				if strings.TrimSpace(x.Reason) != "" {
